@@ -72,6 +72,7 @@ type paramDef struct {
 }
 
 type GuardDecl struct {
+	Private bool // exemption list, not a guard
 	Pkg       string
 	Struct    string
 	Lock      string // expression over "self"
@@ -475,6 +476,18 @@ func parseGuard(pkg, rest string) (*GuardDecl, error) {
 		return nil, fmt.Errorf("bad struct clause")
 	}
 	hd := strings.Fields(f[0])
+	if len(hd) == 2 && hd[1] == "private" {
+		// struct T private: f1, f2 — written after construction but by design not guarded (single-writer
+		// private state, or published by happens-before); listed so that every other field written after
+		// construction must be declared guarded
+		g := &GuardDecl{Pkg: pkg, Struct: hd[0], Class: "private", Lock: "private", Private: true}
+		for _, x := range strings.Split(f[1], ",") {
+			if x = strings.TrimSpace(x); x != "" {
+				g.Fields = append(g.Fields, x)
+			}
+		}
+		return g, nil
+	}
 	if len(hd) < 3 || hd[1] != "guarded_by" {
 		return nil, fmt.Errorf("bad struct clause head")
 	}
